@@ -36,7 +36,10 @@ STYLES = ("rest", "google", "numpydoc")
 # structured types  (JSON form understood by the driver:  {"n":..} {"opt":..} {"lit":[..]} {"list":..} {"union":[..,..]})
 # ------------------------------------------------------------------------------------------------------------
 SCALARS = ["int", "float", "str", "bool", "dict"]
-MEMBERS = ["alpha", "beta", "gamma", "delta", "eps", "a", "b", "x y", "A-1", "r2"]
+MEMBERS = ["alpha", "beta", "gamma", "delta", "eps", "a", "b", "x y", "A-1", "r2",
+           # members whose `repr` is not quote + text + quote: apostrophes, double quotes, both, backslashes; non-ASCII text
+           "don't care", "it's", "'n", 'say "hi"', 'both \' and "', "back\\slash", "C:\\dir\\", "naïve", "名前"]
+assert all(m.isprintable() and not (len(m) > 2 and m[0] == m[-1] and m[0] in "'\"") for m in MEMBERS)  # printable, not wrapped in quotes (set_value)
 
 
 def render_typ(t, dq=False) -> str:
@@ -45,9 +48,9 @@ def render_typ(t, dq=False) -> str:
     if "opt" in t:
         return "Optional[%s]" % render_typ(t["opt"], dq)
     if "lit" in t:
-        if dq:
+        if dq and not any(ch in m for m in t["lit"] for ch in '"\\'):
             return "Literal[%s]" % ",".join('"%s"' % m for m in t["lit"])
-        return "Literal[%s]" % ", ".join("'%s'" % m for m in t["lit"])
+        return "Literal[%s]" % ", ".join(repr(m) for m in t["lit"])  # Python's own repr (= Sql.reprStr of the model)
     if "list" in t:
         return "List[%s]" % render_typ(t["list"], dq)
     return "Union[%s, %s]" % (render_typ(t["union"][0], dq), render_typ(t["union"][1], dq))
@@ -264,7 +267,7 @@ ODD_TYPES = [{"n": "datetime"}, {"n": "np.ndarray"}, {"n": "list"}, {"n": "Tuple
              {"list": {"n": "struct_x"}}, {"list": {"lit": ["a", "b"]}}, {"list": {"list": {"n": "int"}}}, {"list": {"opt": {"n": "int"}}}, {"list": {"union": [{"n": "int"}, {"n": "str"}]}},
              {"union": [{"n": "int"}, {"n": "str"}]}, {"union": [{"n": "foo"}, {"n": "str"}]}, {"union": [{"n": "int"}, {"n": "foo"}]}, {"union": [{"n": "foo"}, {"n": "bar"}]},
              {"union": [{"n": "a.b"}, {"n": "int"}]}, {"union": [{"list": {"n": "int"}}, {"n": "int"}]}, {"union": [{"lit": ["a", "b"]}, {"n": "int"}]}, {"opt": {"union": [{"n": "int"}, {"n": "str"}]}},
-             {"opt": {"opt": {"lit": ["a", "b"]}}}, {"lit": ["only"]}, {"opt": {"lit": ["only"]}}]
+             {"opt": {"opt": {"lit": ["a", "b"]}}}, {"lit": ["only"]}, {"opt": {"lit": ["only"]}}, {"lit": ["it's"]}, {"lit": ["don't", 'say "hi"', "back\\slash"]}]
 
 
 def gen_param_odd(r):
@@ -570,7 +573,7 @@ def gen_column(r):
         if k < 0.5:
             args.append({"n": r.choice(["Integer", "String", "JSON", "Boolean", "Float", "BigInteger", "Text", "LargeBinary", "DateTime", "int", "str", "Numeric", "foo"])})
         elif k < 0.65:
-            ms = r.sample(["a", "b", "c"], r.randint(0, 3))
+            ms = r.sample(["a", "b", "c", "don't", 'say "hi"', 'q\' "', "back\\slash"], r.randint(0, 3))
             args.append({"f": "Enum", "a": [{"c": m} for m in ms], "k": [["name", {"c": name}]]})
         elif k < 0.8:
             args.append({"f": "ForeignKey", "a": [{"c": r.choice(["t.id", "u.name"])}], "k": []})
@@ -868,7 +871,7 @@ def run(chk: core.Check) -> int:
     chk.trusted_base += [
         "translator harness/translators/sqltables.py: reads column_type2typ / typ2column_type / sqlalchemy_top_level_imports from the imported modules (after `import cdd.sqlalchemy.emit`) and writes them as Lean char lists",
         "hand-written model lean/CddVerif/Model/Sql.lean; abstractions: a type is a tree (string predicates on type strings = structural predicates; exercised on every rendered type), "
-        "ast.unparse∘ast.parse is the identity on the emitted calls, the docstring emitter/parser behind the header docstring and comment= are black boxes (the model gives the text each emitter hands to the docstring emitter; the harness renders it with the real docstring emitter and compares with the emitted comment= / class docstring), generate_repr_method is not modelled, Literal members are plain strings "
+        "ast.unparse∘ast.parse is the identity on the emitted calls, the docstring emitter/parser behind the header docstring and comment= are black boxes (the model gives the text each emitter hands to the docstring emitter; the harness renders it with the real docstring emitter and compares with the emitted comment= / class docstring), generate_repr_method is not modelled, Literal members are printable strings (Python repr modelled by Sql.reprStr: quote choice, escaping of backslash / quote / \\n \\r \\t) "
         "(repr = quote + text + quote), ensure_valid_identifier is the identity on the generated (ASCII) table names; column names are arbitrary strings for the model (the only steps that inspect them: the candidate rule (substring _name / _id / id_, or equal to id), endswith kwargs, set_value's quote stripping, and the two reserved class attributes __tablename__/__table__), generated as NFKC-normalised non-keyword identifiers of the Basic Multilingual Plane (CPython's parser NFKC-normalises identifiers, which alone would make the class variant differ)",
         "the oracle compares types as normalised Python expressions, descriptions up to outer whitespace and one terminal '.', defaults with their Python type",
     ]
@@ -893,6 +896,11 @@ def run(chk: core.Check) -> int:
         for force in (False, True):
             cases.append({"name": "Foo", "doc": "Summary line.", "returns": None, "style": "rest", "force": force, "markers": ["plain"] * len(names),
                           "params": [[nm, {"typ_j": {"n": "str"}, "typ": "str", "doc": "the %s" % nm}] for nm in names]})
+    # Enum members whose repr needs the other quote or an escape (apostrophe, double quote, both, backslash), plain and Optional
+    for force in (False, True):
+        quoted = [{"lit": ["don't care", "no", "yes"]}, {"opt": {"lit": ['say "hi"', "it's"]}}, {"lit": ['both \' and "', "back\\slash"]}, {"opt": {"lit": ["C:\\dir\\", "'n", "名前"]}}]
+        cases.append({"name": "Foo", "doc": "Summary line.", "returns": None, "style": "rest", "force": force, "markers": ["plain"] * len(quoted),
+                      "params": [["kind%d" % i, {"typ_j": t, "typ": render_typ(t), "doc": "the kind"}] for i, t in enumerate(quoted)]})
     cases += [w for _, w in WITNESSES]
     res = core.pmap(impl_case, cases, chunksize=32)
     # every listed finding must still be reproduced by its witness (otherwise the line is stale)
